@@ -35,6 +35,7 @@ pub struct GenCfg {
     pub eff_listen: String,
     pub motd: String,
     pub max_joins: Option<usize>,
+    pub max_connections: Option<usize>,
     pub default_modes: String,
     pub password: Option<String>,
     pub overrides: Vec<String>,
@@ -164,8 +165,11 @@ pub fn gen_config(seeds: &[u16], force_valid: bool) -> GenCfg {
             bad("password hash invalid", &mut reasons);
         }
     }
+    let mut max_connections = None;
     if s.chance(50) {
-        t += &format!("max_connections = {}\n", 1 + s.pick(5000));
+        let m = if s.chance(50) { 2 + s.pick(4) } else { 1 + s.pick(5000) };
+        t += &format!("max_connections = {}\n", m);
+        max_connections = Some(m);
     }
     let mut max_joins = None;
     match mode(&mut s, 40, pi) {
@@ -407,6 +411,7 @@ pub fn gen_config(seeds: &[u16], force_valid: bool) -> GenCfg {
         eff_listen,
         motd,
         max_joins,
+        max_connections,
         default_modes,
         password,
         overrides,
@@ -782,6 +787,42 @@ pub fn check_govern(c: &CfgCase, st: &mut Stats) -> Result<(), Viol> {
                 return Err(fail("C20.max_joins", "max-joins", format!("max_joins = {} but channel #{} could be joined: {:?}", m, m + 1, ls)));
             }
             st.count("max_joins_probed");
+        }
+    }
+    // max_connections governs: with the limit reached further connections are not served, and a
+    // served connection that ends makes room again (however many were refused meanwhile)
+    if let Some(m) = g.max_connections {
+        if m <= 6 {
+            let mut served = vec![conn];
+            let probe = |w: &mut World, c: usize| -> bool {
+                w.send_line(c, "PING slot");
+                w.settle();
+                w.drain(c).iter().any(|l| l.contains(" 451 ") || l.contains(" PONG "))
+            };
+            while served.len() < m {
+                let c = w.connect();
+                w.settle();
+                if !probe(&mut w, c) {
+                    return Err(fail("C20.max_connections", "max-connections", format!("max_connections = {} but connection #{} was not served", m, served.len() + 1)));
+                }
+                served.push(c);
+            }
+            for k in 0..(1 + s.pick(3)) {
+                let c = w.connect();
+                w.settle();
+                if probe(&mut w, c) {
+                    return Err(fail("C20.max_connections", "max-connections", format!("max_connections = {} but an extra connection ({}) was served", m, k + 1)));
+                }
+            }
+            let gone = served.pop().unwrap();
+            w.close(gone, crate::sim::CloseKind::Drop);
+            w.settle();
+            let c = w.connect();
+            w.settle();
+            if !probe(&mut w, c) {
+                return Err(fail("C20.max_connections", "max-connections", format!("max_connections = {}: after a served connection ended a new one was refused", m)));
+            }
+            st.count("max_connections_probed");
         }
     }
     crate::sim::set_in_sim(false);
